@@ -32,7 +32,7 @@ def run(tier, seed):
     import mu_common
     res = {"violations": [], "broken": [], "coverage": {}}
     tie = mu_common.tie(res, "note_replay", "NoteModel", [("note_mix", {"VRT_FAMILY": f}, 150, 1500) for f in (0, 1, 2, 3)], tier, seed)
-    specs = [("note_waitwin", {"VRT_AIM": 60}, 1000, 15000), ("note_mix", {"VRT_FAMILY": f}, 2000, 40000) for f in (0, 1, 2, 3, 4)] + [("note_f8", {}, 800, 15000), ("note_f9", {}, 800, 15000), ("note_f9", {"VRT_T3": 2}, 800, 15000)]
+    specs = [("note_mix", {"VRT_FAMILY": f}, 2000, 40000) for f in (0, 1, 2, 3, 4)] + [("note_waitwin", {"VRT_AIM": 60}, 1000, 15000), ("note_f8", {}, 800, 15000), ("note_f9", {}, 800, 15000), ("note_f9", {"VRT_T3": 2}, 800, 15000)]
     cov = scen_common.run_scenarios(res, specs, tier, seed, {"C08"} | scen_common.LIVENESS | scen_common.CRASHES)
     cov["rule"] = ("note_mix: parent-child-grandchild(+sibling) trees with deadlines none/past/future, notifiers, pollers, waiters, creators, "
                    "freers; per-note observation history must be monotone (w.r.t. observations completed before a call starts), notify returns "
